@@ -197,15 +197,15 @@ class Env:
         return cls._inst
 
     def make_berte(self, mon, sched):
-        b = object.__new__(self.BertE)
-        b.settings = self.settings
+        # the real constructor (mock git host), so that whatever attribute
+        # BertE.__init__ creates exists; then the collaborators that would
+        # need a repository are replaced and the queue is the monitored one
+        b = self.stubs.real_berte(self.settings)
         b.client = None
         b.project_repo = types.SimpleNamespace(full_name='owner/slug')
         b.git_repo = NullGit()
         b.tmpdir = None
         b.task_queue = MonQueue(mon, sched)
-        b.tasks_done = collections.deque(maxlen=1000)
-        b.status = {}
         return b
 
     def make_job(self, berte, key, ev, outcome):
